@@ -90,9 +90,9 @@ EvSelect ==
   /\ E.ev = "Select"
   /\ LET t == E.task
          A == SeqSet(T(t).alloc)  B == SeqSet(T(t).alt)  S == SeqSet(E.sel)
-         ok == cur = t /\ (B = {} => E.sel = T(t).alloc)
+         ok == cur = t /\ E.sel = ExpSel(t, E.cursor)
      IN /\ ts' = [ts EXCEPT ![t].sel = E.sel]
-        /\ conf' = (conf /\ ok) /\ div' = Note(ok, <<"Select", t, E.sel>>)
+        /\ conf' = (conf /\ ok) /\ div' = Note(ok, <<"Select", t, "got", E.sel, "expected", ExpSel(t, E.cursor)>>)
         \* C03: exactly one of the candidate sets is used
         /\ bad' = bad \cup Flag(S \subseteq A \/ S \subseteq B, <<"C03", l, "selection mixes primaries and alternatives", t>>)
   /\ UNCHANGED <<used, usage, lim, lsec, cur>>
